@@ -4,6 +4,8 @@ R1 (engine E1): in the unlock family (nsync_mu_unlock, nsync_mu_runlock, nsync_m
    transition that leaves the calling thread with neither the lock nor the queue spinlock, no instruction up to the return
    accesses memory through a pointer derived from mu (load, store, atomic, or passing it to a callee).
 R2 (engine E1): in the same family no access through mu follows the first semaphore V of a dequeued waiter (the woken thread may free the mutex).
+R7 (engine E1): a thread that turns MU_WAITING on has a non-empty queue, or clears the bit, when it drops the spinlock (the slow unlock path
+   relies on a queued waiter keeping the mutex alive after its early release) - found F6, repaired.
 R3 (CFG, cv): in every function that unlinks records from a condition variable's queue under the cv spinlock and defers their
    wake-up to after the spinlock is dropped, only records proven pooled (NSYNC_WAITER_FLAG_MUCV true edge) may be deferred;
    a record without that proof (an nsync_wait_n caller's on-stack/heap record) must be woken inside the spinlock region.
@@ -216,6 +218,29 @@ def run(ctx, rep):
                         '%s: a record unlinked from the cv queue is put on the deferred wake list without a dominating NSYNC_WAITER_FLAG_MUCV test; an nsync_wait_n caller owns such a record and may dequeue and discard it as soon as the cv spinlock is released (wake it under the spinlock instead)' % fn.name,
                         site='%s/deferred-nonpooled-wake' % fn.name))
     rep.floor('C13.R3', 3)
+    # ---- R7: MU_WAITING implies a queued thread.  The slow path of unlock gives up the lock by its first CAS and keeps using the mutex (queue,
+    # word) until its final CAS; that is safe only because it is taken when MU_WAITING is set and a queued waiter is a user that keeps the mutex
+    # alive.  So a thread that turns MU_WAITING on (while taking the spinlock) must have put somebody on the queue - or take the bit back -
+    # by the time it drops the spinlock.
+    rep.rule('C13.R7', 'a thread that sets MU_WAITING has a non-empty queue (or clears the bit) when it releases the spinlock')
+    WT = K['MU_WAITING']
+    seen7 = set()
+    for r in eng.records:
+        if r.kind == 'trans' and r.wc.name == 'mu' and r.pairs and getattr(r, 'set_waiting', False) and r.spin == 1 and r.new_spin == 0:
+            keeps = any(n & WT for e, n in r.pairs)
+            s7 = r.site(eng.wrappers)
+            ok = (not keeps) or r.queue_nonempty
+            key = (s7.fn.name, s7.id, ok, r.entry)
+            if key in seen7:
+                continue
+            seen7.add(key)
+            rep.instance('C13.R7', 'spinlock released at %s after setting MU_WAITING: bit kept=%s queue known non-empty=%s [%s]' % (s7.where(), keeps, r.queue_nonempty, r.entry))
+            rep.oblig('C13.R7', ok)
+            if not ok:
+                rep.violate(Violation('C13.R7', s7.where(),
+                    'MU_WAITING can be left set although this thread queued nobody and the queue is not known to be non-empty: the next release takes the slow path, gives up the lock while it is still using the mutex, and - with no queued waiter as a user - another thread can acquire, find itself the last user and free the mutex under it [entry %s, via %s]' % (r.entry, r.ctx()),
+                    site='%s/waiting-without-waiter' % s7.fn.name))
+    rep.floor('C13.R7', 3)
     check_dequeuers(ctx, mod, eng, runs, rep)
     rep.assumptions += ['pooled waiter structs (nsync_waiter_new_) are never freed, so touching them after the release is safe',
                         'a thread queued on the mutex is itself a user of it: the mutex cannot be reclaimed while the queue is non-empty']
